@@ -54,7 +54,12 @@ def configs(tier, seed):
             for fam in ("two_overlap", "oneway"):
                 cfgs.append(dict(name="est:%s:%s:MD_step:i1:total_omitted" % (fam, sizes), kind="estimate", fam=fam, sizes=sizes,
                                  solver="MD_step", iters=1, cut=None, total="omitted", cost=5))
-    cats = [("abc", (2, 3, 2), CAT3), ("abcd", (2, 2, 2, 2), {k: CAT4[k] for k in ("mid_first4", "cycle4", "star4", "pair_pair", "three_way_sep")})]
+    cats = [("abc", (2, 3, 2), CAT3), ("abcd", (2, 2, 2, 2), {k: CAT4[k] for k in ("mid_first4", "sorted_not_rip", "cycle4", "star4", "pair_pair", "three_way_sep")})]
+    # structural zeros that remove a whole separator value: every solver, one iteration
+    for solver in ("MD_step", "RDA", "IG"):
+        for zname in ("full_row", "separator_value"):
+            cfgs.append(dict(name="est:two_overlap:(2, 2, 2):%s:i1:zeros_%s" % (solver, zname), kind="estimate", fam="two_overlap", sizes=(2, 2, 2),
+                             solver=solver, iters=1, cut=None, total="given", zeros=zname, cost=5, timeout=300))
     if tier == "thorough":
         cats += [("abc", (1, 2, 3), CAT3), ("abcd", (2, 2, 2, 2), CAT4), ("abcd", (2, 3, 2, 2), CAT4), ("abcde", (2, 2, 2, 2, 2), CAT5)]
     for attrs, sizes, cat in cats:
@@ -72,7 +77,11 @@ def estimate_scenario(cfg):
         dom = mbi.Domain(attrs, sizes)
         N = V.real("N", "p") if cfg["total"] == "given" else None
         ms = estim.measurements(V, dom, estim.FAMS[cfg["fam"]])
-        eng = mbi.FactoredInference(dom, iters=cfg["iters"])
+        zs = {}
+        if cfg.get("zeros"):
+            from .c10_structural_zeros import ZEROS
+            zs = {k: list(v) for k, v in ZEROS[cfg["zeros"]].items()}
+        eng = mbi.FactoredInference(dom, iters=cfg["iters"], structural_zeros=zs)
         name, opts = estim.solver_options(V, cfg["solver"])
         model = eng.estimate(ms, total=N, engine=name, options=opts)
         T = []
